@@ -131,12 +131,19 @@ def run_kani_units(mods, repo_root, tier, work, verbose=False):
         import resource
         gb = int(os.environ.get("VERIF_KANI_MEM_GB", "10"))
         resource.setrlimit(resource.RLIMIT_AS, (gb << 30, gb << 30))
+    # own process group, so that a timeout takes the cbmc children down with cargo-kani (no orphans eating memory)
+    import signal
+    proc = subprocess.Popen(cmd, cwd=dest, env=ENV, stdout=subprocess.PIPE, stderr=subprocess.PIPE, text=True, preexec_fn=limit, start_new_session=True)
     try:
-        p = subprocess.run(cmd, cwd=dest, env=ENV, capture_output=True, text=True, timeout=timeout, preexec_fn=limit)
-        out = p.stdout + "\n" + p.stderr
-    except subprocess.TimeoutExpired as e:
-        out = (e.stdout or b"").decode("utf8", "replace") + "\n" + (e.stderr or b"").decode("utf8", "replace") if isinstance(e.stdout, bytes) else (e.stdout or "") + (e.stderr or "")
-        out += "\nTIMEOUT"
+        so, se = proc.communicate(timeout=timeout)
+        out = so + "\n" + se
+    except subprocess.TimeoutExpired:
+        try:
+            os.killpg(proc.pid, signal.SIGKILL)
+        except Exception:
+            pass
+        so, se = proc.communicate()
+        out = (so or "") + "\n" + (se or "") + "\nTIMEOUT"
     wall = time.time() - t0
     if verbose:
         print(out[-6000:])
@@ -154,14 +161,26 @@ def run_kani_units(mods, repo_root, tier, work, verbose=False):
         short = h["name"].split("::")[-1]
         key = next((k for k in per if k == h["name"] or k.endswith("::" + short)), None)
         hid = "%s.%s" % (m.NAME, short)
+        bounded = h.get("kind") == "bounded"
+        # a THOROUGH-ONLY BOUNDED stand-in that did not finish (time / memory limit of this machine under load) decides nothing and
+        # is never counted as proof: it is reported as not completed in the evidence and does not make the check undecided.  Quick
+        # harnesses and complete (full-domain) harnesses must finish.
+        optional = bounded and h.get("tier") == "thorough"
         if key is None:
+            if optional:
+                r.bounded.append(dict(id=hid, props=list(h["props"]), bound=h.get("bound"), status="NOT COMPLETED (no result: time or memory limit)",
+                                      checks=0, time=None, kind="bounded"))
+                continue
             r.status = "undecided"
             r.reason += "harness %s: no result (timeout/OOM/build error)\n" % short
             continue
         v = harness_verdict(per[key])
         tags = h.get("tags") or []
-        bounded = h.get("kind") == "bounded"
         if not v["ok"] and not v["failed"]:
+            if optional:
+                r.bounded.append(dict(id=hid, props=list(h["props"]), bound=h.get("bound"), status="NOT COMPLETED (CBMC gave no verdict: time or memory limit)",
+                                      checks=0, time=None, kind="bounded"))
+                continue
             r.status = "undecided"
             r.reason += "harness %s: neither SUCCESSFUL nor FAILED:\n%s\n" % (short, per[key][-800:])
             continue
